@@ -114,10 +114,14 @@ CORPUS = [
 
 
 # ------------------------------------------------------------------ Gallina printers
+def zi(n):
+    n = int(n)
+    return f"({n})" if n < 0 else str(n)
+
+
 def g_q(fr):
     fr = Fraction(fr)
-    n = f"({fr.numerator})" if fr.numerator < 0 else str(fr.numerator)
-    return f"({n} # {fr.denominator})%Q"
+    return f"({zi(fr.numerator)} # {fr.denominator})%Q"
 
 
 def g_cq(re, im):
@@ -125,7 +129,7 @@ def g_cq(re, im):
 
 
 def g_bword(letters):
-    return glist(letters, lambda l: f"({gz(l[0])}, {gbool(l[1] == '+')})")
+    return glist(letters, lambda l: f"({zi(l[0])}, {gbool(l[1] == '+')})")
 
 
 def g_bsent(terms):
@@ -133,22 +137,24 @@ def g_bsent(terms):
 
 
 def rnd12(x):
-    return Fraction(int(round(x * 10 ** 12)), 10 ** 12)
+    """numerator over 10^12"""
+    return int(round(x * 10 ** 12))
 
 
 def snap(x):
-    f = Fraction(x).limit_denominator(4096)
-    return f if abs(float(f) - x) < 1e-12 else None
+    """numerator over 4096 if x is (within 1e-12) a multiple of 1/4096"""
+    n = int(round(x * 4096))
+    return n if abs(n / 4096 - x) < 1e-12 else None
 
 
 def g_isent(img, conv):
-    return glist(img, lambda e: "(" + glist(e[0], lambda wp: f"({gz(wp[0])}, {P1[wp[1]]})") + ", "
-                 + g_cq(conv(e[1]), conv(e[2])) + ")")
+    return glist(img, lambda e: "(" + glist(e[0], lambda wp: f"({zi(wp[0])}, {P1[wp[1]]})") + ", "
+                 + f"({zi(conv(e[1]))}, {zi(conv(e[2]))})" + ")")
 
 
 def g_case(c, o, conv=rnd12):
     exp = "None" if o == "ERR" else f"(Some {g_isent(o['img'], conv)})"
-    return f"({KIND[c['kind']]}, {gz(c['d'])}, {g_bsent(c['terms'])}, {exp})"
+    return f"({KIND[c['kind']]}, {zi(c['d'])}, {g_bsent(c['terms'])}, {exp})"
 
 
 # ------------------------------------------------------------------ independent numpy oracle
